@@ -8,3 +8,4 @@ INVARIANT NothingRaised
 INVARIANT RaisedAtFirstFailure
 INVARIANT NonFailingUntouched
 INVARIANT KeepOrDrop
+INVARIANT ExcludedUntouched
